@@ -27,7 +27,8 @@ CASE_TIMEOUT = 45
 WALL = {"quick": 1200, "thorough": 10800}
 MAX_TIMEOUTS = {"quick": 2, "thorough": 40}
 REQUIRED = {"geometric_checks": 300, "direction_checks": 150, "direction_checks_wrapped": 15, "distance_checks": 60,
-            "cycle_checks": 40, "persistence_checks": 20, "sampled_distances": 20, "multi_restraint_runs": 10}
+            "cycle_checks": 40, "persistence_checks": 20, "sampled_distances": 20, "multi_restraint_runs": 10,
+            "regions_at_box_face": 15}
 TOP = """[ defaults ]
 1 2 no 1.0 1.0
 [ atomtypes ]
@@ -69,7 +70,7 @@ def setup():
 
 def plan(tier, seed):
     n = 330 if tier == "quick" else 6000
-    modes = ["geom", "geom", "rw", "rw", "rw_small", "dist", "cycle", "cycle", "pers", "mix", "two_dist"]
+    modes = ["geom", "geom", "geom_edge", "rw", "rw", "rw_small", "dist", "cycle", "cycle", "pers", "mix", "two_dist"]
     return [[modes[i % len(modes)], i] for i in range(n)]
 
 
@@ -116,7 +117,7 @@ def run_case(cid, rng, workdir):
     text = TOP.format(atoms="\n".join(atoms), bonds="\n".join(bonds), extra=extra, mols="\n".join(mols))
     with open(os.path.join(workdir, "c7.top"), "w") as fh:
         fh.write(text)
-    small = mode == "rw_small"
+    small = mode in ("rw_small", "geom_edge")
     box = np.array([round(rng.uniform(3.0, 4.5), 3) for _ in range(3)]) if small else \
         np.array([round(rng.uniform(6.5, 9.0), 3) for _ in range(3)])
     bl = ["[ molecule ]", "M %d %d" % (lead, lead + nm)]
@@ -170,6 +171,20 @@ def run_case(cid, rng, workdir):
 
     if mode == "geom":
         add_geom()
+    elif mode == "geom_edge":
+        # forbidden region hugging a box face / edge / corner in a small box: residues that cross the opposite face
+        # re-enter next to (or inside) it
+        kind = rng.choice(["sphere", "cylinder", "rectangle"])
+        c = np.array([round(rng.choice([0.2, box[k] - 0.2, box[k] / 2]), 3) for k in range(3)])
+        c[rng.randrange(3)] = 0.2
+        pars = {"sphere": [rng.uniform(1.0, 1.5)], "cylinder": [rng.uniform(0.9, 1.3), rng.uniform(0.9, 1.3)],
+                "rectangle": [rng.uniform(0.8, 1.2) for _ in range(3)]}[kind]
+        pars = [round(x, 3) for x in pars]
+        for nm_ in ("RA", "RB"):
+            bl.extend(["[ %s ]" % kind, "%s %d %d out %.3f %.3f %.3f %s" % (nm_, 1, nres + 1, c[0], c[1], c[2],
+                                                                       " ".join("%.3f" % x for x in pars))])
+            restr.append(("geom", kind, "out", c, pars, nm_, 1, nres + 1))
+        bump(res, "regions_at_box_face")
     elif mode in ("rw", "rw_small"):
         add_rw()
     elif mode == "dist":
@@ -255,9 +270,15 @@ def run_case(cid, rng, workdir):
                                        int(np.sign(r[5])), abs(r[5])), w)
             elif r[0] in ("dist", "pers", "cycle"):
                 if r[0] == "cycle":
-                    # the closing edge = the ring edge that is not part of the depth-first path from residue 0
-                    a, b, d, tol = 0, len(m.nodes) - 1, 0.0, r[1]
-                    # independent identification: nodes 0 and n-1 are joined by the extra bond n-1
+                    # the closing edge = the edge of the ring that the growth tree does not use (every tree edge is one
+                    # step long by construction, so this is the only bonded residue pair that has to be 'closed')
+                    closing = [(x, y) for x, y in m.edges if not tree.has_edge(x, y) and not tree.has_edge(y, x)]
+                    if len(closing) != 1:
+                        violation(res, "cycle-closing-edge-ambiguous", "ring of %d residues: growth tree leaves %d residue-graph "
+                                  "edges unused" % (len(m.nodes), len(closing)), w)
+                        continue
+                    a, b = closing[0]
+                    d, tol = 0.0, r[1]
                     key = "cycle_checks"
                 elif r[0] == "dist":
                     a, b, d, tol = r[1], r[2], r[3], r[4]
